@@ -81,6 +81,8 @@ CLAIMS = {
         "Decides termination (every loop that reads the stream leaves it when read() returns b''; reads consume constant "
         "positive sizes), no fabrication (from_kd_buf only ever receives the raw 64-byte read) and laziness (generator "
         "functions and filter/map/generator-expression stages only, no materialisation - a list comprehension over the stream "
+        "counts as one; the premise that from_kd_buf rejects a buffer that is not a whole record (whole-buffer struct.unpack of "
+        "KEVENT_SIZE bytes, or an explicit length check) is an obligation of its own; a list comprehension over the stream "
         "counts as one - or reordering; print_with_count tests "
         "the count before printing). Prefix equality itself follows from laziness + determinism and is argued, not checked.",
         "Read cost inside construct is trusted to be linear.",
@@ -174,7 +176,8 @@ CLAIMS = {
         "who-may-write set",
         "Decides column independence for all 2^6 configurations at once (each column is an alternative on exactly one switch "
         "with an empty 'off' side, no other dependence on switches, fixed order), the one-pair-of-tables clause, the "
-        "unknown-thread clause and the writer set. That colouring leaves the text unchanged is not decided.",
+        "unknown-thread clause and the writer set (including that a log record's declaration is stored in the iteration that "
+        "yields it). That colouring leaves the text unchanged is not decided.",
         "The reviewed writer set is frozen from the reviewed tree with one line of reason per writer.",
         "DESIGN.md §4 C14"),
     "C15": (
@@ -208,7 +211,8 @@ CLAIMS = {
         "errno.errorcode, 3 on the socket enums, 2 on SOL_SOCKET, 1 on signal.Signals) are genuine defects recorded as known "
         "findings (repair needs Darwin tables); a decoder that newly depends on a host table, or a new table, is a violation, "
         "while moving a use into a helper changes nothing. The host's time zone is treated the same way: every astimezone / "
-        "fromtimestamp call must be given a zone that is not None on any path. Quantifies over all hosts because it removes the dependence rather "
+        "fromtimestamp call must be given a zone that is not None on any path (a setting that starts as None only under an "
+        "established not-None guard). Quantifies over all hosts because it removes the dependence rather "
         "than sampling hosts.",
         "Dynamic access (getattr/importlib) is not modelled - the package uses none; an embedded fixture must be flagged on "
         "every run.",
